@@ -1,0 +1,83 @@
+//go:build verif
+
+package ledger
+
+import (
+	"bytes"
+	"sort"
+)
+
+// Read-only accessors used by /verif (build tag `verif` only). None of them touches a cache.
+
+func (ledger *FinalityLedger[T]) verifItems(fin bool) *memItems[T] {
+	if fin {
+		return ledger.finalityItems
+	}
+	return ledger.SimpleLedger.cachedItems
+}
+
+// VerifView returns what a read through the consensus (fin) or mempool overlay sees.
+func (ledger *FinalityLedger[T]) VerifView(key LedgerKey, fin bool) (T, bool) {
+	ledger.mtx.Lock()
+	defer ledger.mtx.Unlock()
+
+	var emptyNil T
+	m := ledger.verifItems(fin)
+	if item, ok := m.getGotItem(key); ok {
+		return item, true
+	}
+	if m.isRemovedKey(key) {
+		return emptyNil, false
+	}
+	item, xerr := ledger.read(key)
+	if xerr != nil {
+		return emptyNil, false
+	}
+	return item, true
+}
+
+// VerifKeys returns, in ascending order, every key of the saved tree or of the overlay's caches.
+func (ledger *FinalityLedger[T]) VerifKeys(fin bool) []LedgerKey {
+	ledger.mtx.Lock()
+	defer ledger.mtx.Unlock()
+
+	set := map[LedgerKey]struct{}{}
+	_, _ = ledger.tree.Iterate(func(key []byte, value []byte) bool {
+		set[ToLedgerKey(key)] = struct{}{}
+		return false
+	})
+	m := ledger.verifItems(fin)
+	for k := range m.gotItems {
+		set[k] = struct{}{}
+	}
+	for k := range m.updatedItems {
+		set[k] = struct{}{}
+	}
+	keys := make([]LedgerKey, 0, len(set))
+	for k := range set {
+		keys = append(keys, k)
+	}
+	sort.Slice(keys, func(i, j int) bool { return bytes.Compare(keys[i][:], keys[j][:]) < 0 })
+	return keys
+}
+
+// VerifCaches returns the keys of the got cache, the updated set and the removed list.
+func (ledger *FinalityLedger[T]) VerifCaches(fin bool) (got, updated, removed []LedgerKey) {
+	ledger.mtx.Lock()
+	defer ledger.mtx.Unlock()
+
+	m := ledger.verifItems(fin)
+	for k := range m.gotItems {
+		got = append(got, k)
+	}
+	for k := range m.updatedItems {
+		updated = append(updated, k)
+	}
+	removed = append(removed, m.removedKeys...)
+	less := func(s []LedgerKey) func(i, j int) bool {
+		return func(i, j int) bool { return bytes.Compare(s[i][:], s[j][:]) < 0 }
+	}
+	sort.Slice(got, less(got))
+	sort.Slice(updated, less(updated))
+	return
+}
